@@ -282,7 +282,7 @@ func (s *ogServer) promQuery(db string, q *query) result {
 		return result{err: fmt.Sprintf("http %d, body is not JSON: %s", resp.StatusCode, tail(string(b), 200))}
 	}
 	if pr.Status != "success" {
-		return result{err: fmt.Sprintf("http %d %s: %s", resp.StatusCode, pr.ErrorType, pr.Error)}
+		return result{err: ogErrClass(resp.StatusCode, pr.ErrorType, pr.Error)}
 	}
 	res := result{}
 	switch pr.Data.ResultType {
@@ -371,4 +371,18 @@ func (s *ogServer) flush() error {
 		return fmt.Errorf("flush: status %d: %s", resp.StatusCode, tail(string(b), 200))
 	}
 	return nil
+}
+
+// ogErrClass maps an openGemini error answer onto the enum of upstreamErrClass where the two
+// engines have the same notion of error.
+func ogErrClass(status int, typ, msg string) string {
+	switch {
+	case strings.Contains(msg, "vector cannot contain metrics with the same labelset"):
+		return "dup-labelset"
+	case strings.Contains(msg, "duplicate matchTags of primary map building"):
+		return "dup-match"
+	case strings.Contains(msg, "one-to-one duplicate result matchkeys"):
+		return "many-to-one"
+	}
+	return fmt.Sprintf("http %d %s: %s", status, typ, msg)
 }
